@@ -378,3 +378,41 @@ def controlling_switches(fn, block):
             else:
                 work.append(p)
     return out
+
+
+def path_avoiding(fn, start_block, is_stop, is_hit, exempt_edges=(), from_succ=True):
+    """Search a path from start_block to a block with is_stop(b) that never enters a block with is_hit(b) and never
+    takes an edge in exempt_edges.  Returns the list of blocks or None."""
+    exempt = set(exempt_edges)
+    seen = set()
+    work = []
+    if from_succ:
+        for s in fn.succ(start_block):
+            if (start_block, s) not in exempt:
+                work.append((s, [start_block, s]))
+    else:
+        work.append((start_block, [start_block]))
+    while work:
+        b, path = work.pop()
+        if b in seen:
+            continue
+        seen.add(b)
+        if is_hit(b):
+            continue
+        if is_stop(b):
+            return path
+        for s in fn.succ(b):
+            if (b, s) in exempt or s in seen:
+                continue
+            work.append((s, path + [s]))
+    return None
+
+
+def bool_edges(fn, sw):
+    """(true_target, false_target) of a bool switch block"""
+    t = fn.term(sw)
+    f_t = None
+    for v, tg in t["cases"]:
+        if v == "0":
+            f_t = tg
+    return t["else"], f_t
